@@ -924,7 +924,8 @@ class GroupByApply(Expr, GroupByBase):
     def need_to_shuffle(self):
         if not any(isinstance(b, Expr) for b in self.by):
             if any(
-                set(self._by_columns) >= set(cols)
+                set(self._by_columns)
+                >= (set(cols) if isinstance(cols, tuple) else {cols})
                 for cols in self.frame.unique_partition_mapping_columns_from_shuffle
             ):
                 return False
